@@ -21,6 +21,7 @@ import shutil
 import time
 
 from vlib import core
+from checks import ring_common as R
 
 SQPOLL, SUBMIT_ALL, COOP, SQE128, CQE32, SINGLE_ISSUER, DEFER = 1 << 1, 1 << 7, 1 << 8, 1 << 10, 1 << 11, 1 << 12, 1 << 13
 IOPOLL, CLAMP, R_DISABLED, TASKRUN_FLAG = 1 << 0, 1 << 4, 1 << 6, 1 << 9
@@ -103,10 +104,47 @@ def generate(work, mode, maxbatch, depth_batches, num, seed):
     return res, res.generated, batches
 
 
-def run_driver(bindir, batches_path, root, entries, flags, timeout=900):
+def sock_scripts(work, maxq):
+    """UringSock.tla: exhaustive run + dump -> transition tour -> scripts, with the model's result per step"""
+    cfg = tlc_cfg(os.path.join(work, "sock_mc.cfg"), {"MaxQ": maxq}, "SInit", "SNext", ("QueueBounded",))
+    dot = os.path.join(work, "sock.dot")
+    res = core.run_tlc("UringSock.tla", cfg, workers=2, timeout=600, dump=dot,
+                       metadir=os.path.join(core.WORK, "tlc-meta", "c18-%d-sock" % os.getpid()))
+    core.tlc_must_pass(res, "UringSock")
+    g = R.Graph(dot)
+    os.unlink(dot)
+    if len(g.nodes) != res.distinct:
+        raise core.ToolError("sock dump has %d nodes for %d states" % (len(g.nodes), res.distinct))
+    scripts = []
+    for k, (init, steps) in enumerate(g.tour(maxlen=40, radius=6)):
+        cur = g.nodes[init]
+        out, model = [], []
+        for (lab, arg, v) in steps:
+            a = arg if isinstance(arg, tuple) else ((arg,) if arg is not None else ())
+            if lab == "Connect":
+                out.append(["connect", a[0]])
+                model.append(0 if cur["cs"][a[0] - 1] == "new" else -106)
+            elif lab == "Accept":
+                out.append(["accept"])
+                model.append("fd")
+            elif lab == "Send":
+                out.append(["send", a[0], a[1]])
+                model.append(a[1] if cur["cs"][a[0] - 1] != "new" else -107)
+            elif lab == "SendFd":
+                out.append(["sendfd", a[0]])
+                model.append(1)
+            elif lab in ("Recv", "Peek"):
+                out.append(["recv" if lab == "Recv" else "peek", a[0], a[1]])
+                model.append(min(a[1], cur["q"][a[0] - 1]))
+            cur = g.nodes[v]
+        scripts.append({"run": k, "steps": out, "model": model})
+    return res, g.nedges, scripts
+
+
+def run_driver(bindir, batches_path, root, entries, flags, timeout=900, mode="run"):
     shutil.rmtree(root, ignore_errors=True)
     os.makedirs(root)
-    p = core.run_cmd([os.path.join(bindir, "uring_ops"), "run", batches_path, root, str(entries), str(flags)], timeout=timeout, check=False)
+    p = core.run_cmd([os.path.join(bindir, "uring_ops"), mode, batches_path, root, str(entries), str(flags)], timeout=timeout, check=False)
     recs = [json.loads(l) for l in p.stdout.splitlines() if l.startswith("{") and l.endswith("}")]
     if p.returncode != 0:
         # a crash of the driver process is data if the run was rejected before (decided by the caller)
@@ -152,7 +190,8 @@ def culprit(rec, clause):
     if clause == "data_differs_from_direct_call":
         for k, s in enumerate(subs):
             if not rec["payload_same"][k]:
-                return s["op"], json.dumps(rec.get("payload", {}))[:300]
+                pl = rec.get("payload", {})
+                return s["op"], "ring %s direct %s" % (json.dumps(pl.get("a", [None] * (k + 1))[k]), json.dumps(pl.get("b", [None] * (k + 1))[k]))
     if clause == "missing_completion":
         for s in subs:
             if not any(x["u"] == s["u"] for x in cq):
@@ -239,6 +278,7 @@ def run(tier):
         f_singles = pool.submit(generate, chk.work, "singles", 1, 0, 0, chk.seed)
         f_walks = {size: pool.submit(generate, chk.work, "walk", size, nb, 2 if quick else 4, chk.seed + size) for size, nb in sizes}
         f_pairs = pool.submit(generate, chk.work, "pairs", 2, 0, 0, chk.seed) if not quick else None
+        f_sock = pool.submit(sock_scripts, chk.work, 6 if quick else 8)
         mres = f_models.result()
         gres, _, singles = f_singles.result()
         chk.add_tlc(gres)
@@ -251,6 +291,8 @@ def run(tier):
             gres, gen, ws = f.result()
             chk.transitions += gen
             walks[size] = ws
+        sres, sock_edges, scripts = f_sock.result()
+        chk.add_tlc(sres)
     xf = []
     for res, fact in mres:
         chk.add_tlc(res)
@@ -310,6 +352,29 @@ def run(tier):
             for kx, s in enumerate(r["subs"]):
                 c = [x for x in r["cqes"] if x["u"] == s["u"]]
                 nontrivial.add((s["op"], json.dumps(r["ops"][kx], sort_keys=True), c[0]["res"] if c and c[0]["res"] < 0 else 0))
+    # socket scripts: every step is a batch of one operation
+    spath = os.path.join(chk.work, "sock_scripts.ndjson")
+    core.write_ndjson(spath, scripts)
+    sock_stats = {"model_states": sres.distinct, "model_edges": sock_edges, "scripts": len(scripts), "steps_run": 0, "scripts_cut_short": 0,
+                  "steps_where_direct_call_differs_from_model": 0}
+    for fl in ([0] if quick else [f for f in (0, SQE128 | CQE32, SINGLE_ISSUER | DEFER) if f in accepted]):
+        recs = run_driver(bindir, spath, root, 8, fl, mode="sock")
+        per_run = {}
+        for r in recs:
+            if r["ev"] == "batch":
+                allrecs.append(r)
+                meta.append(("sock", 8, fl))
+                per_run.setdefault(r["run"], []).append(r)
+                sock_stats["steps_run"] += 1
+                want = scripts[r["run"]]["model"][r["b"]]
+                got = r["direct"][0]["res"]
+                if (want == "fd" and got < 0) or (want != "fd" and got != want):
+                    sock_stats["steps_where_direct_call_differs_from_model"] += 1
+                nontrivial.add((r["subs"][0]["op"], json.dumps(r["step"]), got if got < 0 else 0))
+            if r["ev"] == "aborted":
+                aborted["sock"] = r["why"]
+        sock_stats["scripts_cut_short"] += sum(1 for k, sc in enumerate(scripts) if len(per_run.get(k, [])) < len(sc["steps"]))
+    os.unlink(spath)
     core.log("driver: %d batches %.1fs" % (len(allrecs), time.time() - t1))
     t2 = time.time()
     B = 4000
@@ -328,6 +393,7 @@ def run(tier):
                         "%s on %s: %s (ring %d entries, flags %d, batch %s of %s; %s)" % (clause, op, detail, entries, flags, rec["b"], tag,
                                                                                          json.dumps(rec["ops"])[:300]),
                         {"part": "ops", "entries": entries, "flags": flags, "record": rec, "clause": clause,
+                         "script": scripts[rec["run"]]["steps"][:rec["b"] + 1] if tag == "sock" else None,
                          "note": "batches of one ring share an evolving world; replay re-runs this batch on a freshly reset world"})
     for tag, why in aborted.items():
         if not any(meta[ci * B + i][0] == tag for ci, (_, bad) in enumerate(results) for i in bad):
@@ -366,6 +432,7 @@ def run(tier):
                 "success or the specific errno / -ECANCELED; plus %d traced set-up/drop runs" % len(truns))
     chk.exhaustive = False
     chk.extra["ops_runs"] = stats
+    chk.extra["socket_scripts"] = sock_stats
     chk.extra["tlc_generated"] = {"singles": len(singles), "pairs": len(pairs), "walk_batches": {str(k): [len(w) for w in v] for k, v in walks.items()}}
     chk.extra["setup_flags_accepted_by_kernel"] = sorted(accepted)
     chk.extra["setup_flags_refused_by_kernel"] = probe["refused"][:40]
@@ -380,7 +447,8 @@ def run(tier):
         "the oracle for results and side effects is the equivalent direct system call (libc) on a twin directory/handle table, not a model of the file system",
         "equivalences used: readv/writev entries carry file offset 0 (preadv/pwritev at 0); timeout <-> nanosleep (0 <-> -ETIME); poll_add <-> poll with zero timeout (POLLNVAL <-> -EBADF); descriptor-valued results are compared as 'a descriptor'",
         "unlinked operations of one batch are generated independent (no shared name or handle) because the kernel may run them in any order; inside IOSQE_IO_LINK chains operations may depend on each other",
-        "not covered: readv/writev fixed, connect/accept, sendmsg/recvmsg (socket pairs), multishot poll, SQPOLL idle/wakeup races, IOPOLL rings for operations (set-up/teardown only)",
+        "socket operations (connect/accept/sendmsg/recvmsg on unix stream sockets, SCM_RIGHTS) follow scripts toured from UringSock.tla in which no step can block; a script is cut at the first step where ring and direct call disagree",
+        "not covered: readv/writev fixed, inet accept, multishot poll, SQPOLL idle/wakeup races, IOPOLL rings for operations (set-up/teardown only)",
         "teardown is observed with strace on single-threaded runs; what a second munmap of the same range can hit in a threaded program is shown on the model (UringRes.tla, NothingElse)",
     ]
     return chk.finish()
@@ -396,6 +464,17 @@ def replay(path):
             print(json.dumps(e))
         bad = judge_teardown(chk, [evs])
         print("verdict:", bad if bad else "accepted by UringResTrace")
+        return 1 if bad else 0
+    if "step" in rp["record"]:
+        print("socket script step; the script up to the rejected step:")
+        print(json.dumps(rp.get("script")))
+        bpath = os.path.join(chk.work, "replay_sock.ndjson")
+        core.write_ndjson(bpath, [{"run": 0, "steps": rp["script"]}])
+        recs = [r for r in run_driver(bindir, bpath, "/tmp/verif-c18-replay", rp["entries"], rp["flags"], mode="sock") if r["ev"] == "batch"]
+        for r in recs:
+            print(json.dumps({k: r[k] for k in ("step", "cqes", "direct", "payload")}))
+        _, bad = judge_batches(chk, recs, "replay")
+        print("verdict:", bad if bad else "accepted by UringOpsTrace")
         return 1 if bad else 0
     bpath = os.path.join(chk.work, "replay_batches.ndjson")
     core.write_ndjson(bpath, [dict(b=0, reset=True, ops=rp["record"]["ops"])])
